@@ -19,7 +19,18 @@ def emit(rng, t, v, ops):
     elif k == 'a':
         et = t[1]
         if et[0] == 'b' and et[1] in wiregen.FIXED and et[1] not in "bh" and rng.random() < 0.6:
-            ops.append("fa:%s:%s" % (et[1], ",".join(str(x) for x in v)))
+            # the values go in as one block, or as several blocks and single values one after the other (the API allows appending to an
+            # array that already holds elements)
+            if len(v) >= 2 and rng.random() < 0.5:
+                parts, i = [], 0
+                while i < len(v):
+                    if rng.random() < 0.3:
+                        parts.append("b%d" % v[i]); i += 1
+                    else:
+                        n = rng.randint(1, len(v) - i); parts.append(",".join(str(x) for x in v[i:i + n])); i += n
+                ops.append("fa:%s:%s" % (et[1], ";".join(parts)))
+            else:
+                ops.append("fa:%s:%s" % (et[1], ",".join(str(x) for x in v)))
         else:
             ops.append("open:a:" + wiregen.sig(et))
             for x in v: emit(rng, et, x, ops)
